@@ -80,6 +80,13 @@ def rewrites(case, data):
                 n['content'] = alt
                 yield 'boolean-%02x' % alt[0], wire.emit(root), depth
             n['content'] = b'\xff'
+        # (c') BOOLEAN contents of another length: sign-extended spellings of -1 / 0, mixed, empty
+        if not n['cons'] and is_bool and n['content'] in (b'\xff', b'\x00'):
+            keep = n['content']
+            for alt in (keep * 2, keep * 3, b'\xff\x00', b'\x00\xff', b''):
+                n['content'] = alt
+                yield 'boolean-len%d-%s' % (len(alt), alt.hex() or 'empty'), wire.emit(root), depth
+            n['content'] = keep
 
 
 def check_case(rep, drv, case, rng=None):
